@@ -164,7 +164,7 @@ pub fn run(kind: &str, args: &[&str]) -> Option<Obs> {
                 Err(_) => Ok(vec![el, 0, 0, 0, 0, peak_rss_kb(), 0, growth]),
             }
         }
-        "sixel" => {
+        "c03sixel" => {
             let bytes = unhex(args[0]);
             let s: String = bytes.iter().map(|b| *b as char).collect();
             let rss0 = reset_peak();
